@@ -33,11 +33,22 @@ func c06Config(r *rng.R) progs.Config {
 func makeC06(seed uint64) *c06Case {
 	r := rng.New(seed)
 	cs := &c06Case{seed: seed, opts: optionSet(r)}
-	cs.prog = progs.Generate(r, c06Config(r))
-	for try := 0; try < 50; try++ {
+	// the injection is chosen by the seed (runC06 hands out seeds that rotate through all of
+	// them); base programs are drawn until one has a place for it
+	want := int(seed % uint64(progs.NumInjections))
+	for try := 0; try < 40 && cs.inj.Name == ""; try++ {
+		cfg := c06Config(r)
+		if try > 0 && try%2 == 1 {
+			cfg.Files = 3 // injections that need includes, services or exceptions
+		}
+		cs.prog = progs.Generate(r, cfg)
+		if inj, ok := progs.InjectAt(r, cs.prog, want); ok {
+			cs.inj = inj
+		}
+	}
+	for try := 0; try < 50 && cs.inj.Name == ""; try++ {
 		if inj, ok := progs.Inject(r, cs.prog); ok {
 			cs.inj = inj
-			break
 		}
 	}
 	if cs.inj.Name == "" {
@@ -142,7 +153,8 @@ func runC06(c *checker) {
 	cases := make([]*c06Case, n)
 	jobs := make([]*gobuild.Job, n)
 	for i := range cases {
-		cases[i] = makeC06(c.r.U64())
+		k := uint64(progs.NumInjections)
+		cases[i] = makeC06(c.r.U64()/k/2*k + uint64(i)%k)
 		jobs[i] = cases[i].job
 	}
 	res := c.env.BuildAll(jobs, *par)
